@@ -213,17 +213,23 @@ def may_be_bool(t):
 
 
 def fn_of_bool(t):
-    """does the tree apply a transcendental function directly to a truth value? (NumPy evaluates np.sin(True) in float16: outside the claim)"""
+    """does the tree use a truth value as a number: a transcendental function, a sign or an arithmetic operator applied directly to a
+    truth value?  Outside the claim: NumPy evaluates np.sin(True) in float16, -np.True_ and np.True_ - x raise, np.True_ + np.True_ is True,
+    while the same expressions on Python booleans (comparisons of plain floats) give numbers."""
     k = t[0]
     if k in ('num', 'const'):
         return False
     if k == 'bin':
+        if t[1] in ('+', '-', '*', '/', '**') and (may_be_bool(t[2]) or may_be_bool(t[3])):
+            return True
         return fn_of_bool(t[2]) or fn_of_bool(t[3])
     if k == 'un':
+        if t[1] in ('+', '-') and may_be_bool(t[2]):
+            return True
         return fn_of_bool(t[2])
     if k == 'par':
         return fn_of_bool(t[1])
     if k == 'fn':
-        if t[1] in ('log', 'log10', 'sqrt', 'sin', 'cos', 'tan', 'logb') and any(may_be_bool(a) for a in t[2]):
+        if any(may_be_bool(a) for a in t[2]):
             return True
         return any(fn_of_bool(a) for a in t[2])
